@@ -512,8 +512,8 @@ fn mount_case() -> BoxedStrategy<MountCase> {
 }
 
 pub fn run(ctx: &Ctx, rep: &Report) {
-    run_prop(ctx, rep, "paths", ctx.tier.pick(12_000, 300_000), &|| path_case(), &check_paths);
-    run_prop(ctx, rep, "mounts", ctx.tier.pick(30_000, 800_000), &|| mount_case(), &check_mounts);
+    run_prop(ctx, rep, "paths", ctx.tier.pick(12_000, 3_000_000), &|| path_case(), &check_paths);
+    run_prop(ctx, rep, "mounts", ctx.tier.pick(30_000, 6_000_000), &|| mount_case(), &check_mounts);
 }
 
 pub fn replay(sub: &str, case: &Value) -> Result<(), Fail> {
